@@ -338,6 +338,16 @@ def check_property(pid, harness_path, tier, seed, only=None):
         row['exhaustive'] = row['verdict'] == 'confirmed'
         ob_rows.append(row)
 
+    if getattr(mod, 'EXTRA', None) == 'formulas' and not only:
+        from vf import formulas
+        frows, fviol, ferrs = formulas.run(pid)
+        ob_rows.extend(frows)
+        harness_errors.extend(ferrs)
+        for v in fviol:
+            v['replay'] = write_replay(pid, v['ob'], {'formula_query': v['call'],
+                                                       'model': v['model']}, {'result': False},
+                                       v['what'])
+            violations.append(v)
     for v in violations:
         lines.append(f"VIOLATION property={pid} replay={v['replay']}")
     wall = time.time() - t_start
